@@ -510,6 +510,7 @@ class VbsWriter(object):
 
     """
     def __init__(self, out_file: typing.BinaryIO, blocked: bool = False):
+        self.finalised = False
         self.out_file = out_file
         if blocked:
             self.out_file = Block1014(out_file)
@@ -554,9 +555,13 @@ class VbsWriter(object):
     def close(self) -> None:
         """
         Finalise the VBS file output by adding the zero length file record.
+        The file is finalised once only. Subsequent calls (e.g. close inside a context manager) do nothing.
 
         :return: None
         """
+        if self.finalised:
+            return
+        self.finalised = True
         # add zero length to end of record
         self.out_file.write(struct.pack(">I", 0))
         self.out_file.seek(0)
